@@ -1,6 +1,6 @@
 (** C03 — Metadata precedes the data that references it, under concurrency. *)
 From Coq Require Import List ZArith NArith Bool.
-From BL Require Import Base.Bytes Reader.Entry Session.SessionModel Session.SessionInv Session.SessionProps Gen.SrcFacts.
+From BL Require Import Base.Bytes Reader.Entry Session.SessionModel Session.SessionInv Session.SessionProps Reader.ReaderLemmas Recovery.SessionCover Session.SessionCoverOut Gen.SrcFacts.
 Import ListNotations.
 Local Open Scope N_scope.
 
@@ -39,3 +39,25 @@ Example C03_srcfacts :
   SrcFacts.sess_locks_createChannel = true /\ SrcFacts.sess_source_id_under_lock = true /\ SrcFacts.sess_consume_order = true /\
   SrcFacts.macro_registers_then_stores_sid = true.
 Proof. repeat split; reflexivity. Qed.
+
+(** ... and this with the ids, for EVERY history and EVERY schedule of lock-free writer actions inside each consume (raw addEvent payloads
+    must carry an id the session handed out - what the log macros guarantee; see [run_cov]): after its metadata part a consume writes only
+    writer descriptions and runs of whole events whose source ids are below [next_sid] at the start of that consume ... *)
+Theorem C03_events_follow_their_sources : forall c ops, small (cs_payload c) -> run_cov true (sess_init c) ops ->
+  Forall (fun so => match so with
+                    | (s, SConsume plans, SoWrites ws _) =>
+                        exists data, ws = (if consume_cs s then [cs_buf s] else []) ++ [drop_pos s] ++ data /\ Forall (piece_ok (next_sid s)) data
+                    | _ => True end)
+         (strace (sess_init c) ops).
+Proof.
+  generalize (eq_refl : SrcFacts.sess_fence_after_closed_test = true). generalize SrcFacts.sess_fence_after_closed_test. intros b_ _.
+  generalize (eq_refl : SrcFacts.macro_registers_then_stores_sid = true). generalize SrcFacts.macro_registers_then_stores_sid. intros b1 ->.
+  exact outputs_covered.
+Qed.
+Print Assumptions C03_events_follow_their_sources.
+(** ... and the sources buffer, which that metadata part completes in the output, holds exactly one source for every such id *)
+Theorem C03_sources_cover_the_ids : forall s plans s' ws r, CInv s -> Forall (plan_cov (next_sid s)) plans -> consume true s plans = (s', ws, r) ->
+  exists data, ws = (if consume_cs s then [cs_buf s] else []) ++ [drop_pos s] ++ data /\ Forall (piece_ok (next_sid s)) data /\
+    exists srcs, src_buf s = stream_of (map (fun p => src_payload (fst p) (snd p)) srcs) /\ map fst srcs = map N.of_nat (seq 1 (N.to_nat (next_sid s) - 1)).
+Proof. exact consume_out_covered. Qed.
+Print Assumptions C03_sources_cover_the_ids.
